@@ -9,6 +9,26 @@ CLAIMED = {
             "Every history (item-op^{<=K} build)^{<=R} over a 5-6 id universe, every build option of the menu and every listed metric is executed on the real implementation; after every build the raw LMDB dump is decoded by an independent decoder and the structure oracle S is evaluated. Exhaustive within the stated bounds; a cap, if hit, is reported.",
             "Trusted: LMDB/heed, roaring serialisation, rayon; builds run on one rayon thread (schedules are C13's subject); bounds: ids, vectors, options, seeds and rounds of the alphabet.",
             "DESIGN.md §3 C01"),
+    "C02": ("model_checking", "E1-history-explorer",
+            "explicit-state BFS over operation histories on the real code; every built state queried exhaustively and compared with an f64 brute-force reference",
+            "Every built state of the bounded history exploration (all 7 metrics) is queried with an unlimited budget by every stored id and every lattice vector for a menu of counts; each answer must be the exact top-k of the reference model.",
+            "Trusted: LMDB/heed, roaring, rayon. Small-integer lattice vectors (distance accuracy for other values is C11). States with an invalid forest are left to C01.",
+            "DESIGN.md §3 C02"),
+    "C03": ("model_checking", "E1-history-explorer",
+            "explicit-state BFS over histories + exhaustive enumeration of the query-option lattice on every built state",
+            "On every built state of a reduced history exploration the full product count x search_k x oversampling x candidates x query (about 9000 cells per state) is evaluated on one read transaction against the reference model, including cross-cell laws (budget equivalence, monotonicity, saturation = exact, by_item = by_vector).",
+            "Trusted: LMDB/heed, roaring, rayon. Bounds: the option menus listed in the evidence; 4-5 ids.",
+            "DESIGN.md §3 C03"),
+    "C04": ("model_checking", "E1-history-explorer",
+            "explicit-state BFS over histories; margins recomputed in f64 from the independently decoded dump for every (tree, split, item)",
+            "Every built state (all 7 metrics, incremental rounds included): for every tree, split and stored item below it the side is compared with the sign of the f64 margin when that sign is certain; plus the budget-1 self lookup for items separated by clean planes.",
+            "Trusted: LMDB/heed, roaring, rayon. Margins whose sign an f32 evaluation could get wrong are not judged (counted in the evidence).",
+            "DESIGN.md §3 C04"),
+    "C15": ("model_checking", "E1-history-explorer",
+            "explicit-state BFS over histories that change the requested tree count between rounds; option oracle on every build transition",
+            "Every build transition of the bounded exploration (dimensions 1-3, explicit/automatic tree counts changing between rounds, several capacities): reader-visible tree count, non-empty default-budget search, bucket capacity bound when the capacity was constant.",
+            "Trusted: LMDB/heed, roaring, rayon.",
+            "DESIGN.md §3 C15"),
 }
 
 NOT_YET = "check not built yet in this session; see DESIGN.md §3 for the planned exploration"
